@@ -222,6 +222,151 @@ def r04b(ctx, run):
                   "a Data result must be emitted as a data object holding exactly the recorded bytes, aligned like the block's type; found create_global_data%s" % (what,))
 
 
+def r04g(ctx, run):
+    """the canonicalisation of captured bytes (zero_padding) changes nothing that is part of the value: evaluated from source on sample values
+    (a struct with gaps, an array of it, an enum with explicit discriminants, a tagged optional, an error union, a distinct of a struct) against a
+    reference byte mask computed from the layouts - every byte of the value is kept, every other byte is zero"""
+    from symint import SymInterp
+    from absint import Obj, Term, Variant, Panic, CannotEstablish, _Return
+    CT = "codegen/src/compiler/comptime.rs"
+    zp = ctx.syn.fn("zero_padding", CT)
+    V = Variant
+
+    class BV:
+        """a mutable window into a byte buffer"""
+        def __init__(self, buf, lo, hi):
+            self.buf, self.lo, self.hi = buf, lo, hi
+
+    inner = {st["name"]: st for st in zp.body["s"] if st.get("k") == "fn"}
+
+    class NF:
+        def __init__(self, node):
+            self.body = node["b"]
+            self.node = node
+
+        def param_names(self):
+            return [p_["p"].get("n") for p_ in self.node["params"]]
+    u8, u16, u64 = V("Ty::UInt", {"0": 8}), V("Ty::UInt", {"0": 16}), V("Ty::UInt", {"0": 64})
+
+    def mem(n, t):
+        return Obj("MemberTy", name=Term(n), ty=t)
+    S = V("Ty::ConcreteStruct", {"uid": 1, "members": [mem("a", u8), mem("b", u64), mem("c", u8)]})           # a@0 b@8 c@16, size 17, stride 24
+    A2 = V("Ty::ConcreteArray", {"size": 2, "sub_ty": S})                                                          # items at 0 and 24, size 41
+    va = V("Ty::EnumVariant", {"enum_uid": 2, "variant_name": Term("A"), "uid": 3, "sub_ty": u64, "discriminant": 5})
+    vb = V("Ty::EnumVariant", {"enum_uid": 2, "variant_name": Term("B"), "uid": 4, "sub_ty": u16, "discriminant": 9})
+    E = V("Ty::Enum", {"uid": 2, "variants": [va, vb]})                                                            # payload 0..8, tag at 8, size 9
+    O = V("Ty::Optional", {"sub_ty": u16})                                                                          # payload 0..2, tag at 2, size 3
+    EU = V("Ty::ErrorUnion", {"error_ty": u8, "payload_ty": u64})                                                   # payload 0..8, tag at 8, size 9
+    D = V("Ty::Distinct", {"uid": 9, "sub_ty": S})
+    OS = V("Ty::Optional", {"sub_ty": S})                                                                           # payload 0..17, tag at 17, size 18
+    layout = {
+        repr(u8): dict(size=1, stride=1), repr(u16): dict(size=2, stride=2), repr(u64): dict(size=8, stride=8),
+        repr(S): dict(size=17, stride=24, offsets=[0, 8, 16]), repr(A2): dict(size=41, stride=48), repr(E): dict(size=9, stride=16, discr=8), repr(va): dict(size=8, stride=8),
+        repr(vb): dict(size=2, stride=2), repr(O): dict(size=3, stride=4, discr=2), repr(EU): dict(size=9, stride=16, discr=8), repr(D): dict(size=17, stride=24),
+        repr(OS): dict(size=18, stride=24, discr=17),
+    }
+    smask = [0] + list(range(8, 17))
+    # (name, type, set of offsets that belong to the value for the given tag byte, (tag offset, tag value) or None)
+    samples = [
+        ("struct {u8, u64, u8}", S, set(smask), None),
+        ("[2]struct {u8, u64, u8}", A2, set(smask) | {24 + x for x in smask}, None),
+        ("enum {A: u64 | 5, B: u16 | 9} holding A", E, set(range(0, 9)), (8, 5)),
+        ("enum {A: u64 | 5, B: u16 | 9} holding B", E, {0, 1, 8}, (8, 9)),
+        ("?u16 holding a value", O, {0, 1, 2}, (2, 1)), ("?u16 holding nil", O, {2}, (2, 0)),
+        ("u8!u64 holding the payload", EU, set(range(0, 9)), (8, 1)), ("u8!u64 holding the error", EU, {0, 8}, (8, 0)),
+        ("distinct struct", D, set(smask), None),
+        ("?struct holding a value", OS, set(smask) | {17}, (17, 1)),
+    ]
+
+    class ZI(SymInterp):
+        def eval(self, e, env):
+            k = e["k"]
+            if k in ("ref",) or (k == "un" and e.get("op") in ("*", "&")):
+                return self.eval(e["e"], env)
+            if k == "cast":
+                return self.eval(e["e"], env)
+            if k == "index":
+                b = self.eval(e["e"], env)
+                if isinstance(b, BV):
+                    if e["i"].get("k") == "range":
+                        lo = self.eval(e["i"]["lo"], env) if e["i"].get("lo") is not None else 0
+                        hi = self.eval(e["i"]["hi"], env) if e["i"].get("hi") is not None else b.hi - b.lo
+                        if not (0 <= lo <= hi <= b.hi - b.lo):
+                            raise Panic("slice %d..%d out of a window of %d bytes" % (lo, hi, b.hi - b.lo))
+                        return BV(b.buf, b.lo + lo, b.lo + hi)
+                    i = self.eval(e["i"], env)
+                    if not (0 <= i < b.hi - b.lo):
+                        raise Panic("index %d out of a window of %d bytes" % (i, b.hi - b.lo))
+                    return b.buf[b.lo + i]
+            if k == "call" and e["f"].get("k") == "path":
+                nm = e["f"]["p"].rsplit("::", 1)[-1]
+                if nm in inner or nm == "zero_padding":
+                    args = [self.eval(a, env) for a in e["a"]]
+                    f = NF(inner[nm]) if nm in inner else zp
+                    return self.inline(f, args)
+            return super().eval(e, env)
+
+        def default_method(self, recv, m, args, e):
+            if isinstance(recv, BV):
+                if m == "len":
+                    return recv.hi - recv.lo
+                if m == "fill":
+                    for i in range(recv.lo, recv.hi):
+                        recv.buf[i] = args[0]
+                    return None
+                if m == "get":
+                    return recv.buf[recv.lo + args[0]] if 0 <= args[0] < recv.hi - recv.lo else None
+            if isinstance(recv, Variant) and recv.path.startswith("Ty::"):
+                L = layout.get(repr(recv))
+                if m in ("size", "stride") and L:
+                    return L[m]
+                if m == "struct_layout":
+                    return Obj("StructLayout", offs=L["offsets"]) if L and "offsets" in L else None
+                if m == "enum_layout":
+                    return Obj("EnumLayout", d=L["discr"]) if L and "discr" in L else None
+                if m == "is_tagged_union":
+                    return bool(L and "discr" in L)
+                if m in ("as_ref", "clone", "deref"):
+                    return recv
+            if isinstance(recv, Obj) and recv.name == "StructLayout" and m == "offsets":
+                return list(recv.fields["offs"])
+            if isinstance(recv, Obj) and recv.name == "EnumLayout" and m == "discriminant_offset":
+                return recv.fields["d"]
+            if m == "copied" or m == "cloned":
+                return recv
+            if m == "then_some" and isinstance(recv, bool):
+                return args[0] if recv else None
+            if m in ("min", "max") and isinstance(recv, int) and isinstance(args[0], int):
+                return min(recv, args[0]) if m == "min" else max(recv, args[0])
+            return super().default_method(recv, m, args, e)
+    n = 0
+    for name, ty, keep, tag in samples:
+        size = layout[repr(ty)]["size"]
+        buf = [0xA0 + (i % 16) for i in range(size)]
+        if tag:
+            buf[tag[0]] = tag[1]
+        orig = list(buf)
+        it = ZI(macros={"matches": None} if False else {})
+        try:
+            try:
+                it.inline(zp, [ty, BV(buf, 0, size)])
+            except _Return:
+                pass
+        except (Panic, CannotEstablish) as c:
+            run.finding("zero_padding", "canonical:" + name, zp.file, zp.ln, "cannot establish what zero_padding does to a %s: %s" % (name, getattr(c, "what", c)))
+            continue
+        n += 1
+        lost = [i for i in sorted(keep) if buf[i] != orig[i]]
+        dirty = [i for i in range(size) if i not in keep and buf[i] != 0]
+        run.check(not lost and not dirty, zp.site(), "%s: the %d value bytes are kept, the %d other bytes are zero" % (name, len(keep), size - len(keep)), "zero_padding", "canonical:" + name,
+                  zp.file, zp.ln,
+                  "zero_padding on a %s: %s" % (name, "; ".join(x for x in (
+                      ("bytes %s belong to the value and are overwritten (the program reads a comptime result that differs from what the block computed)" % lost) if lost else "",
+                      ("bytes %s are padding and keep their (unwritten) contents" % dirty) if dirty else "") if x)))
+    if n < 8:
+        raise LookupError("zero_padding samples evaluated: %d" % n)
+
+
 def r04e(ctx, run):
     """every comptime block that eval_comptime_blocks runs gets a recorded result: in the evaluation loop no path from taking a block off the
     work list back to the loop head avoids `results.insert`.  (A block without a recorded result is compiled again by the code generator, into
@@ -427,6 +572,7 @@ def rules(ctx):
         Rule("R04.a", "address-bearing comptime results are rejected or relocated (top level and through aggregate members)", 16, r04a),
         Rule("R04.b", "all comptime blocks are evaluated before code generation, which receives those results and never recompiles an evaluated block", 9, r04b),
         Rule("R04.e", "every comptime block the JIT runs gets a recorded result (must-pass-through results.insert in the evaluation loop)", 1, r04e),
+        Rule("R04.g", "the canonicalisation of captured bytes keeps every byte of the value and zeroes the rest (zero_padding evaluated on sample layouts)", 8, r04g),
         Rule("R04.f", "a global's constant data is converted to (or tested against) the declared type it is read at", 1, r04f),
         Rule("R04.d", "a comptime expression and its body are recorded at the same type (inference and weak-type replacement)", 2, r04d),
         Rule("R04.c", "capture table: read-back type width = Cranelift type width; serialisation at the recorded width", 20, r04c),
